@@ -25,6 +25,9 @@ type Facts struct {
 	pend map[string]pendAtom
 	// bexp: the expression of a non-relational boolean atom (c.closed, f(x)), for instantiating it elsewhere
 	bexp map[string]ast.Expr
+	// strict: a branch condition that contradicts a known fact makes the state dead (inlined graphs, where the facts
+	// about a helper's result make some branches after the call infeasible)
+	strict bool
 }
 
 type pendAtom struct {
@@ -41,7 +44,7 @@ type relAtom struct {
 }
 
 func (f Facts) clone() Facts {
-	n := Facts{m: make(map[string]bool, len(f.m)+2), rel: make(map[string]relAtom, len(f.rel)+2), info: f.info, dead: f.dead}
+	n := Facts{m: make(map[string]bool, len(f.m)+2), rel: make(map[string]relAtom, len(f.rel)+2), info: f.info, dead: f.dead, strict: f.strict}
 	for k, v := range f.m {
 		n.m[k] = v
 	}
@@ -206,6 +209,10 @@ func (f *Facts) assume(e ast.Expr, val bool) {
 		return
 	}
 	atom, flip := canonAtom(f.info, e)
+	if old, known := f.m[atom]; known && old != (val != flip) && f.strict {
+		f.dead = true // the condition contradicts what is known: this edge is infeasible
+		return
+	}
 	f.m[atom] = val != flip
 	if ra, ok := canonRel(f.info, e); ok {
 		f.rel[atom] = ra
@@ -483,7 +490,8 @@ func (ps FactsPS) KnownAll(e ast.Expr) (bool, bool) {
 func (g *Graph) factsLattice() Lattice[Facts] {
 	info := g.Info
 	l := Lattice[Facts]{
-		Init:  Facts{m: map[string]bool{}, rel: map[string]relAtom{}, info: info},
+		Dead:  func(f Facts) bool { return f.dead },
+		Init:  Facts{m: map[string]bool{}, rel: map[string]relAtom{}, info: info, strict: g.inl != nil},
 		Join:  func(a, b Facts) Facts { return joinFacts(g, a, b, false) },
 		Widen: func(a, b Facts) Facts { return joinFacts(g, a, b, true) },
 		Eq: func(a, b Facts) bool {
@@ -553,6 +561,20 @@ func (g *Graph) factsLattice() Lattice[Facts] {
 					g.P.applyLenPostcond(info, &n, call)
 				}
 				return n
+			case StComm:
+				// `case <-ctx.Done():` taken: the context has ended (its Err() is non-nil from here on)
+				if cc, ok := st.Clause.(*ast.CommClause); ok && cc.Comm != nil {
+					if ch := recvChan(cc.Comm); ch != nil {
+						if c, isC := ast.Unparen(ch).(*ast.CallExpr); isC && len(c.Args) == 0 {
+							if sel, isSel := ast.Unparen(c.Fun).(*ast.SelectorExpr); isSel && sel.Sel.Name == "Done" {
+								n := s.clone()
+								n.m["fired:"+exprStr(sel.X)] = true
+								return n
+							}
+						}
+					}
+				}
+				return s
 			case StCase:
 				n := s.clone()
 				be := &ast.BinaryExpr{X: st.Tag, Op: token.EQL, Y: st.Node.(ast.Expr)}
@@ -599,6 +621,9 @@ func (g *Graph) factsLattice() Lattice[Facts] {
 			case StNode:
 				if _, isRange := st.Node.(*ast.RangeStmt); isRange {
 					return s
+				}
+				if g.inl != nil && g.inl.bound[st.Node] {
+					return s // the values were bound at the returns of the expanded helper
 				}
 				lhs := assignedLHS(st.Node)
 				var unlockRoots []string
@@ -653,6 +678,30 @@ func (g *Graph) factsLattice() Lattice[Facts] {
 				}
 				g.P.applyCalleePost(info, &n, st.Node)
 				g.P.recordPending(info, &n, st.Node)
+				if as, ok := st.Node.(*ast.AssignStmt); ok && len(as.Lhs) == len(as.Rhs) {
+					for i, l := range as.Lhs {
+						lid, isId := l.(*ast.Ident)
+						if !isId || lid.Name == "_" {
+							continue
+						}
+						rhs := ast.Unparen(as.Rhs[i])
+						switch {
+						case isNil(info, rhs):
+							n.m[lid.Name+" == nil"] = true
+						case g.P.nonNilErrorValue(info, rhs):
+							n.m[lid.Name+" == nil"] = false
+						default:
+							// X.Err() of a context whose Done channel fired on this path
+							if c, isC := rhs.(*ast.CallExpr); isC && len(c.Args) == 0 {
+								if sel, isSel := ast.Unparen(c.Fun).(*ast.SelectorExpr); isSel && sel.Sel.Name == "Err" {
+									if v, known := n.m["fired:"+exprStr(sel.X)]; known && v {
+										n.m[lid.Name+" == nil"] = false
+									}
+								}
+							}
+						}
+					}
+				}
 				// x := y / x = y with y a variable or field path of a nil-able type: remember that x is a copy of y
 				// ("x ≡ y"), so that a later nil test of x also decides y (killed when either is assigned)
 				if as, ok := st.Node.(*ast.AssignStmt); ok && len(as.Lhs) == len(as.Rhs) && (as.Tok == token.ASSIGN || as.Tok == token.DEFINE) {
@@ -874,7 +923,7 @@ func joinFacts(g *Graph, a, b Facts, widen bool) Facts {
 	if b.dead {
 		return a
 	}
-	n := Facts{m: map[string]bool{}, rel: map[string]relAtom{}, info: a.info}
+	n := Facts{m: map[string]bool{}, rel: map[string]relAtom{}, info: a.info, strict: a.strict}
 	for k, v := range a.pend {
 		if bv, ok := b.pend[k]; ok && bv.val == v.val {
 			if n.pend == nil {
@@ -1124,4 +1173,89 @@ func expandBoolLocals(g *Graph, e ast.Expr, depth int) (ast.Expr, bool) {
 		return &ast.ParenExpr{X: in}, true
 	}
 	return e, false
+}
+
+// nonNilErrorValue: e is a package-level variable that is declared with a freshly constructed error
+// (errors.New / fmt.Errorf / a composite literal) and is never assigned afterwards in the analysed packages.
+func (p *Program) nonNilErrorValue(info *types.Info, e ast.Expr) bool {
+	var id *ast.Ident
+	switch x := ast.Unparen(e).(type) {
+	case *ast.Ident:
+		id = x
+	case *ast.SelectorExpr:
+		id = x.Sel
+	default:
+		return false
+	}
+	v, ok := info.Uses[id].(*types.Var)
+	if !ok || v.Pkg() == nil || v.Parent() != v.Pkg().Scope() {
+		return false
+	}
+	if p.nonNilVars == nil {
+		p.nonNilVars = map[*types.Var]bool{}
+		assigned := map[types.Object]bool{}
+		for _, pkg := range p.Pkgs {
+			for _, f := range pkg.Syntax {
+				ast.Inspect(f, func(n ast.Node) bool {
+					switch s := n.(type) {
+					case *ast.AssignStmt:
+						for _, l := range s.Lhs {
+							if lid, isId := ast.Unparen(l).(*ast.Ident); isId {
+								if o := pkg.TypesInfo.Uses[lid]; o != nil {
+									assigned[o] = true
+								}
+							}
+						}
+					case *ast.UnaryExpr:
+						if s.Op == token.AND {
+							if lid, isId := ast.Unparen(s.X).(*ast.Ident); isId {
+								if o := pkg.TypesInfo.Uses[lid]; o != nil {
+									assigned[o] = true
+								}
+							}
+						}
+					}
+					return true
+				})
+			}
+		}
+		for _, pkg := range p.Pkgs {
+			for _, f := range pkg.Syntax {
+				for _, d := range f.Decls {
+					gd, isG := d.(*ast.GenDecl)
+					if !isG || gd.Tok != token.VAR {
+						continue
+					}
+					for _, sp := range gd.Specs {
+						vs := sp.(*ast.ValueSpec)
+						for i, nm := range vs.Names {
+							if i >= len(vs.Values) {
+								continue
+							}
+							obj, _ := pkg.TypesInfo.Defs[nm].(*types.Var)
+							if obj == nil || assigned[obj] {
+								continue
+							}
+							fresh := false
+							switch val := ast.Unparen(vs.Values[i]).(type) {
+							case *ast.CallExpr:
+								switch calleeName(pkg.TypesInfo, val) {
+								case "errors.New", "fmt.Errorf":
+									fresh = true
+								}
+							case *ast.UnaryExpr:
+								_, fresh = ast.Unparen(val.X).(*ast.CompositeLit)
+							case *ast.CompositeLit:
+								fresh = true
+							}
+							if fresh {
+								p.nonNilVars[obj] = true
+							}
+						}
+					}
+				}
+			}
+		}
+	}
+	return p.nonNilVars[v]
 }
